@@ -22,7 +22,7 @@ def run(chk):
     from pysensors.basis import SVD, Custom, Identity, RandomProjection
     rng = np.random.default_rng(chk.seed + 11)
     thorough = chk.tier == "thorough"
-    N = 260 if thorough else 60
+    N = 400 if thorough else 130
     chk.rule = ("random training matrices (generic and low-rank) x Identity / SVD (randomized and arpack) / RandomProjection / Custom x every admissible "
                 "n_basis_modes (sampled) x every requested k <= n_basis_modes, 0, negatives and k > n_basis_modes x copy=True/False; distinct by "
                 "canonical JSON; non-trivial = more than one mode")
@@ -64,6 +64,9 @@ def run(chk):
             if hi < 1:
                 continue
             nb = int(rng.integers(1, hi + 1))
+            if lowrank and r0 < hi and rng.random() < 0.5:
+                nb = int(rng.integers(r0 + 1, hi + 1))       # more modes than the rank of the data: some singular values are zero
+                chk.count("svd_more_modes_than_rank")
             if rng.random() < 0.3:
                 # more modes than features and/or examples: to be rejected, or at least consistent
                 nb = int(rng.integers(min(n, rows) + 1, max(n, rows) + 3))
